@@ -148,7 +148,7 @@ StepToDirect(s, ev, at) ==
         acc == C!Accepted(w, ky)
         t   == IF acc THEN C!Target(w, ky) ELSE <<>>
         w1 == IF acc /\ tag = "d"
-              THEN [w EXCEPT !.dirs = @ \cup {[d |-> ev.out[2], t |-> t, a |-> w.alive[t].a, born |-> w.rm[w.alive[t].a + 1]]}]
+              THEN [w EXCEPT !.dirs = @ \cup {[d |-> ev.out[2], t |-> t, a |-> w.alive[t].a, born |-> w.rm[w.alive[t].a + 1], src |-> "op"]}]
               ELSE w
         viol1 ==
              If(tag = "d" /\ ~acc, {V(C!WrongAccept(w, ky), at, "to_direct accepted a key that must be rejected")})
